@@ -29,6 +29,8 @@ fn arithmetic_wraps() -> bool {
 }
 
 fn main() {
+    std::panic::set_hook(Box::new(|_| {}));
+    let wraps = arithmetic_wraps();
     rig::install_panic_hook();
     let args: Vec<String> = std::env::args().skip(1).collect();
     if args.is_empty() {
@@ -72,7 +74,6 @@ fn main() {
     let variant = std::env::var("MC_VARIANT").unwrap_or_else(|_| {
         if cfg!(feature = "batch") { "batch".into() } else { "nobatch".into() }
     });
-    let wraps = arithmetic_wraps();
     let ctx = Ctx {
         prop: prop.clone(),
         tier,
